@@ -316,9 +316,13 @@ pub fn scen_optimise(m: &Model, setup: &Setup, spec: &OptSpec, stop_at: Option<u
 pub fn scen_assume(m: &Model, setup: &Setup, rounds: &[(Vec<Atom>, bool)], out: &mut Out) {
     let Some(mut built) = build_or_report(m, setup, out) else { return };
     let mut brancher = make_brancher(&setup.bspec, &built.solver, &built.vars.ids);
+    // some rounds are interrupted after 0-2 polls (derived from a separate generator so that the
+    // rest of the case is unchanged): whatever is left behind must not leak into the next round
+    let mut ir = Rng::new(setup.style_seed ^ 0x5709);
     for (assumptions, want_core) in rounds {
         let preds: Vec<Predicate> = assumptions.iter().map(|a| built.vars.pred(a)).collect();
-        let mut term = StopAt::never();
+        let mut term = if ir.chance(1, 3) { StopAt::at(ir.below(3)) } else { StopAt::never() };
+        let interrupted = term.stop_at.is_some();
         let atoms = fmt_atoms(assumptions);
         let r = built.solver.satisfy_under_assumptions(&mut brancher, &mut term, &preds);
         match r {
@@ -350,6 +354,7 @@ pub fn scen_assume(m: &Model, setup: &Setup, rounds: &[(Vec<Atom>, bool)], out: 
             SatisfactionResultUnderAssumptions::Unsatisfiable => {
                 out.push("verdict assume unsat");
             }
+            SatisfactionResultUnderAssumptions::Unknown if interrupted => out.meta("assume interrupted: unknown"),
             SatisfactionResultUnderAssumptions::Unknown => out.push("nonterm assume"),
         }
     }
@@ -508,7 +513,7 @@ pub fn scen_interrupt(m: &Model, setup: &Setup, what: &str, spec: &OptSpec, r: &
     // uninterrupted run with a counting condition
     let mut count_out = Out::default();
     let polls = match what {
-        "satisfy" | "iterate" => {
+        "satisfy" | "iterate" | "assume" => {
             let Some(mut built) = build_or_report(m, setup, &mut count_out) else {
                 out.lines.extend(count_out.lines);
                 return;
@@ -547,6 +552,62 @@ pub fn scen_interrupt(m: &Model, setup: &Setup, what: &str, spec: &OptSpec, r: &
                     SatisfactionResult::Unknown => out.meta("unknown"),
                 }
                 // ask again, uninterrupted, on the same solver and brancher
+                let mut t = StopAt::never();
+                match built.solver.satisfy(&mut b, &mut t) {
+                    SatisfactionResult::Satisfiable(sol) => {
+                        let _ = sol_record(out, &format!("resumed@{}", k), sol.as_reference(), &built.vars);
+                    }
+                    SatisfactionResult::Unsatisfiable => out.push(format!("verdict resumed@{} unsat", k)),
+                    SatisfactionResult::Unknown => out.push(format!("nonterm resumed@{}", k)),
+                }
+                report_branch_log(&b, out);
+            }
+            "assume" => {
+                // an interrupted assumption solve, then another assumption solve, then a plain one,
+                // all on one solver: nothing of the interrupted query may leak into the later ones
+                let Some(mut built) = build_or_report(m, setup, out) else { return };
+                let mut b = make_brancher(&setup.bspec, &built.solver, &built.vars.ids);
+                let mut ar = Rng::new(setup.style_seed ^ 0xA55 ^ k);
+                let mut first = gen_assumptions(&mut ar, m);
+                if first.is_empty() {
+                    let d = &m.vars[0];
+                    first.push(Atom::Ge(0, d.values[ar.usize(d.values.len())]));
+                }
+                let second = gen_assumptions(&mut ar, m);
+                for (round, (assumptions, stop)) in [(first, Some(k)), (second, None)].into_iter().enumerate() {
+                    let preds: Vec<Predicate> = assumptions.iter().map(|a| built.vars.pred(a)).collect();
+                    let atoms = fmt_atoms(&assumptions);
+                    let mut t = match stop {
+                        Some(k) => StopAt::at(k),
+                        None => StopAt::never(),
+                    };
+                    match built.solver.satisfy_under_assumptions(&mut b, &mut t, &preds) {
+                        SatisfactionResultUnderAssumptions::Satisfiable(sol) => match extract(sol.as_reference(), &built.vars) {
+                            Some(vs) => out.push(format!("asol {} {}", atoms, fmt_vals(&vs))),
+                            None => out.push("partial assume-interrupted"),
+                        },
+                        SatisfactionResultUnderAssumptions::UnsatisfiableUnderAssumptions(mut u) => {
+                            out.push(format!("averdict {} unsat", atoms));
+                            match catch_unwind(AssertUnwindSafe(|| u.extract_core())) {
+                                Ok(core) => {
+                                    let core_atoms: Vec<Atom> = core.iter().map(|p| atom_of(*p)).collect();
+                                    out.push(format!("core {} {}", atoms, fmt_atoms(&core_atoms)));
+                                }
+                                Err(_) => {
+                                    let msg = last_panic();
+                                    if msg.contains("Conflicting assumptions were provided") {
+                                        out.push(format!("conflicting {}", atoms));
+                                    } else {
+                                        out.push(format!("panic extract_core {}", msg.replace(' ', "_")));
+                                    }
+                                }
+                            }
+                        }
+                        SatisfactionResultUnderAssumptions::Unsatisfiable => out.push(format!("verdict assume-round{} unsat", round)),
+                        SatisfactionResultUnderAssumptions::Unknown if stop.is_some() => out.meta("unknown"),
+                        SatisfactionResultUnderAssumptions::Unknown => out.push(format!("nonterm assume-resumed@{}", k)),
+                    }
+                }
                 let mut t = StopAt::never();
                 match built.solver.satisfy(&mut b, &mut t) {
                     SatisfactionResult::Satisfiable(sol) => {
@@ -718,7 +779,9 @@ pub fn scen_history(initial: &Model, ops: &[Op], setup: &Setup, out: &mut Out) {
                 }
                 let preds: Vec<Predicate> = assumptions.iter().map(|a| vars.pred(a)).collect();
                 let atoms = fmt_atoms(assumptions);
-                let mut t = StopAt::never();
+                let mut ir = Rng::new(setup.style_seed ^ 0x5709 ^ (i as u64) << 8);
+                let mut t = if ir.chance(1, 3) { StopAt::at(ir.below(3)) } else { StopAt::never() };
+                let interrupted = t.stop_at.is_some();
                 match solver.satisfy_under_assumptions(&mut brancher, &mut t, &preds) {
                     SatisfactionResultUnderAssumptions::Satisfiable(sol) => match extract(sol.as_reference(), &vars) {
                         Some(vs) => out.push(format!("asol {} {}", atoms, fmt_vals(&vs))),
@@ -747,6 +810,7 @@ pub fn scen_history(initial: &Model, ops: &[Op], setup: &Setup, out: &mut Out) {
                         out.push(format!("verdict op{} unsat", i));
                         infeasible = true;
                     }
+                    SatisfactionResultUnderAssumptions::Unknown if interrupted => out.meta(format!("op{} interrupted: unknown", i)),
                     SatisfactionResultUnderAssumptions::Unknown => out.push(format!("nonterm op{}", i)),
                 }
             }
